@@ -4,11 +4,14 @@ package engines
 
 import (
 	"bytes"
+	"context"
 	"crypto/rand"
+	"errors"
 	"fmt"
 	"strings"
 	"time"
 
+	wrapping "github.com/hashicorp/go-kms-wrapping/v2"
 	"github.com/hashicorp/nodeenrollment"
 	"github.com/hashicorp/nodeenrollment/registration"
 	"github.com/hashicorp/nodeenrollment/rotation"
@@ -20,6 +23,74 @@ import (
 	"verifsim/kernel"
 	"verifsim/simstore"
 )
+
+// flakyWrapper is a storage wrapper whose Encrypt fails at a tape-chosen call (a KMS outage); KeyId and Decrypt keep working.
+type flakyWrapper struct {
+	wrapping.Wrapper
+	failAt int
+	calls  int
+	fired  bool
+}
+
+func (f *flakyWrapper) Encrypt(ctx context.Context, pt []byte, opt ...wrapping.Option) (*wrapping.BlobInfo, error) {
+	f.calls++
+	if f.calls == f.failAt {
+		f.fired = true
+		return nil, errors.New("simulated: KMS unavailable")
+	}
+	return f.Wrapper.Encrypt(ctx, pt, opt...)
+}
+
+// sealedFields lists, per record type, the fields that must hold a sealed blob whenever wrapping_key_id is set.
+func checkSealedFieldsAreSealed(r *kernel.Run, stores ...*simstore.Store) {
+	isBlob := func(b []byte) bool {
+		bi := new(wrapping.BlobInfo)
+		return len(b) > 0 && proto.Unmarshal(b, bi) == nil && len(bi.Ciphertext) >= 12+16
+	}
+	for _, st := range stores {
+		for _, c := range st.Calls {
+			if c.Kind != "store" || len(c.Bytes) == 0 {
+				continue
+			}
+			bad := ""
+			switch c.Type {
+			case "NodeInformation":
+				m := new(types.NodeInformation)
+				if proto.Unmarshal(c.Bytes, m) == nil && m.WrappingKeyId != "" && len(m.ServerEncryptionPrivateKeyBytes) > 0 && !isBlob(m.ServerEncryptionPrivateKeyBytes) {
+					bad = "server_encryption_private_key_bytes"
+				}
+			case "NodeCredentials":
+				m := new(types.NodeCredentials)
+				if proto.Unmarshal(c.Bytes, m) == nil && m.WrappingKeyId != "" {
+					if !isBlob(m.CertificatePrivateKeyPkcs8) {
+						bad = "certificate_private_key_pkcs8"
+					} else if !isBlob(m.EncryptionPrivateKeyBytes) {
+						bad = "encryption_private_key_bytes"
+					} else if len(m.RegistrationNonce) > 0 && !isBlob(m.RegistrationNonce) {
+						bad = "registration_nonce"
+					}
+				}
+			case "RootCertificates":
+				m := new(types.RootCertificates)
+				if proto.Unmarshal(c.Bytes, m) == nil && m.WrappingKeyId != "" {
+					for _, rc := range []*types.RootCertificate{m.Current, m.Next} {
+						if rc != nil && !isBlob(rc.PrivateKeyPkcs8) {
+							bad = "private_key_pkcs8"
+						}
+					}
+				}
+			case "ServerLedActivationToken":
+				m := new(types.ServerLedActivationToken)
+				if proto.Unmarshal(c.Bytes, m) == nil && m.WrappingKeyId != "" && !isBlob(m.CreationTimeMarshaled) {
+					bad = "creation_time_marshaled"
+				}
+			}
+			if bad != "" {
+				r.Violate("no-clear-secrets", "marked-wrapped-but-not-sealed/"+c.Type+"."+bad, "%s storage was handed a %s marked as wrapped (wrapping_key_id set) whose field %s is not a sealed blob", st.Name, c.Type, bad)
+			}
+		}
+	}
+}
 
 type secretReg struct {
 	names []string
@@ -105,6 +176,21 @@ func c12Flows(r *kernel.Run) {
 	nodeW := NewWorld(r, "node", Pick2(tp, "inmem", "file"), true, false)
 	reg := &secretReg{}
 	r.Count("cfg.mode.flows", 1)
+	var flaky *flakyWrapper
+	if tp.Draw(3) == 0 {
+		flaky = &flakyWrapper{Wrapper: srv.SW, failAt: tp.Range(1, 12)}
+		srv.SW = flaky
+	}
+	// an operation that fails because of the injected wrapper outage ends the flow; what reached storage is still judged
+	outage := func(err error) bool {
+		if err != nil && flaky != nil && flaky.fired {
+			r.Count("fault.wrapper_encrypt_outage", 1)
+			scanStores(r, reg, srv.St, nodeW.St)
+			checkSealedFieldsAreSealed(r, srv.St, nodeW.St)
+			return true
+		}
+		return false
+	}
 	regRoots := func() {
 		roots, err := types.LoadRootCertificates(srv.Ctx, srv.Inner, srv.Opts()...)
 		if err != nil {
@@ -130,6 +216,9 @@ func c12Flows(r *kernel.Run) {
 	step := func(name string) { flows = append(flows, name); r.Count("ops."+name, 1) }
 
 	if _, err := rotation.RotateRootCertificates(srv.Ctx, srv.Storage, srv.Opts()...); err != nil {
+		if outage(err) {
+			return
+		}
 		r.HarnessErr("roots: %v", err)
 	}
 	step("rotate_roots")
@@ -137,6 +226,9 @@ func c12Flows(r *kernel.Run) {
 	if tp.Draw(2) == 0 {
 		r.Sleep(8 * 24 * time.Hour)
 		if _, err := rotation.RotateRootCertificates(srv.Ctx, srv.Storage, srv.Opts()...); err != nil {
+			if outage(err) {
+				return
+			}
 			r.HarnessErr("roots 2: %v", err)
 		}
 		step("rotate_roots_promote")
@@ -151,6 +243,9 @@ func c12Flows(r *kernel.Run) {
 		var err error
 		_, token, err = registration.CreateServerLedActivationToken(srv.Ctx, srv.Storage, &types.ServerLedRegistrationRequest{}, srv.Opts(nodeenrollment.WithState(mkStruct(r, tp.Draw(4))))...)
 		if err != nil {
+			if outage(err) {
+				return
+			}
 			r.HarnessErr("token: %v", err)
 		}
 		step("create_token")
@@ -170,12 +265,18 @@ func c12Flows(r *kernel.Run) {
 	}
 	if !useToken {
 		if _, err := registration.AuthorizeNode(srv.Ctx, srv.Storage, req, srv.Opts(nodeenrollment.WithState(mkStruct(r, tp.Draw(4))))...); err != nil {
+			if outage(err) {
+				return
+			}
 			r.HarnessErr("authorize: %v", err)
 		}
 		step("authorize")
 	}
 	resp, err := registration.FetchNodeCredentials(srv.Ctx, srv.Storage, req, srv.Opts()...)
 	if err != nil || len(resp.EncryptedNodeCredentials) == 0 {
+		if outage(err) {
+			return
+		}
 		r.HarnessErr("fetch: %v", err)
 	}
 	step("fetch")
@@ -201,6 +302,9 @@ func c12Flows(r *kernel.Run) {
 		}
 		rresp, err := rotation.RotateNodeCredentials(srv.Ctx, srv.Storage, &types.RotateNodeCredentialsRequest{CertificatePublicKeyPkix: creds.CertificatePublicKeyPkix, EncryptedFetchNodeCredentialsRequest: enc}, srv.Opts()...)
 		if err != nil {
+			if outage(err) {
+				return
+			}
 			r.HarnessErr("rotate node: %v", err)
 		}
 		step("rotate_node_credentials")
@@ -228,12 +332,16 @@ func c12Flows(r *kernel.Run) {
 			srv.Inner.Remove(srv.Ctx, &types.NodeInformation{Id: newInfo.Id})
 		}
 		if err := newInfo.Store(srv.Ctx, srv.Storage, srv.Opts()...); err != nil {
+			if outage(err) {
+				return
+			}
 			r.HarnessErr("store info: %v", err)
 		}
 		step("store_node_information_with_previous_key")
 		creds, oldInfo = newCreds, newInfo
 	}
 	scanStores(r, reg, srv.St, nodeW.St)
+	checkSealedFieldsAreSealed(r, srv.St, nodeW.St)
 	r.FP("flows", strings.Join(flows, ","), backend, nodeW.Backend)
 	r.Count("cases", int64(len(flows)))
 	if r.Index%200 == 0 {
